@@ -11,7 +11,7 @@ from z3 import And, Or, Not, BoolVal
 from specs.ir import IRSpec
 
 MODULE_FUNCTIONS = {'uniquify': 'spydrnet/uniquify.py'}
-FUNCTIONS = [('uniquify', '_is_unique', 'static', [('instance', 'is:Instance')])]
+FUNCTIONS = [('uniquify', '_is_unique', 'static', [('instance', 'is:Instance')]), ('Instance', 'is_unique', 'method', [])]
 
 
 class UniqSpec(IRSpec):
@@ -38,4 +38,4 @@ def post(ctx, spec, h0, s, ekind, args, val):
     return out
 
 
-POSTS = {'uniquify._is_unique': post}
+POSTS = {'uniquify._is_unique': post, 'Instance.is_unique': post}
